@@ -127,3 +127,86 @@ func zzNameClash(backend int) {
 func ZZ_C16_generated_names_hlsl() { zzNameClash(0) }
 func ZZ_C16_generated_names_msl()  { zzNameClash(1) }
 func ZZ_C16_generated_names_glsl() { zzNameClash(2) }
+
+// Second shape: names the HLSL writer derives from USER names outside its namer — the struct
+// and array constructors Construct<Type>, the typedef ret_<function> of an array-returning
+// function and the entry point interface structs <Stage>Input_<ep> / <Stage>Output_<ep> — met
+// by user declarations of exactly that name (and, for the constructors, signature).
+var zzDerivedFunctionNames = []string{"ConstructPair", "Constructarray2_int_", "pick2"}
+var zzDerivedStructNames = []string{"ret_pick", "Holder"}
+
+func zzDerivedNameSource(fname, sname string) string {
+	return "struct Pair { a: i32, b: i32 }\n" +
+		"struct " + sname + " { a: i32 }\n" +
+		"@group(0) @binding(0) var<storage, read_write> buf: array<i32, 8>;\n" +
+		"fn " + fname + "(arg0: i32, arg1: i32) -> i32 { return arg0 - arg1; }\n" +
+		"fn pick(x: i32) -> array<i32, 2> { return array<i32, 2>(x, x + 1); }\n" +
+		"@compute @workgroup_size(1) fn main() {\n" +
+		"  let s = Pair(buf[0], 5);\n" +
+		"  var r: " + sname + ";\n" +
+		"  r.a = pick(buf[2])[1];\n" +
+		"  buf[1] = s.a * 2 + s.b + r.a + " + fname + "(buf[3], buf[4]);\n" +
+		"}\n"
+}
+
+func zzDerivedNames(backend int) {
+	fname := zzDerivedFunctionNames[zz.Choice("name", len(zzDerivedFunctionNames))]
+	sname := zzDerivedStructNames[zz.Choice("struct", len(zzDerivedStructNames))]
+	zz.Cell("derived/" + fname + "/" + sname)
+	in := zzInputs()
+	src := zzDerivedNameSource(fname, sname)
+	var out []uint32
+	var ok bool
+	switch backend {
+	case 0:
+		out, ok = zzCompileAndRunHLSL(src, in, [3]uint32{}, nil)
+	case 1:
+		out, ok = zzCompileAndRunMSL(src, in, [3]uint32{}, nil)
+	default:
+		out, ok = zzCompileAndRunGLSL(src, in, [3]uint32{}, nil)
+	}
+	if ok && len(out) == len(in) {
+		want := int32(in[0])*2 + 5 + (int32(in[2]) + 1) + (int32(in[3]) - int32(in[4]))
+		zz.Assert(out[1] == uint32(want), "with these identifiers the emitted text computes a different value (a call or name binds to the wrong entity)")
+	}
+	zz.Reach("end")
+}
+
+func ZZ_C16_derived_names_hlsl() { zzDerivedNames(0) }
+func ZZ_C16_derived_names_msl()  { zzDerivedNames(1) }
+func ZZ_C16_derived_names_glsl() { zzDerivedNames(2) }
+
+// Entry point interface structs: a vertex/fragment pair whose user structs are called like the
+// structs the HLSL writer generates for the entry points; the emitted text must not define a
+// struct twice (HLSL; the MSL writer routes its interface structs through its namer).
+func ZZ_C16_interface_struct_names() {
+	vsName := []string{"VertexOutput_vs", "VertexOut"}[zz.Choice("vs", 2)]
+	fsName := []string{"FragmentInput_fs", "FragIn"}[zz.Choice("fs", 2)]
+	zz.Cell(vsName + "/" + fsName)
+	src := "struct " + vsName + " { @builtin(position) p: vec4<f32>, @location(0) c: f32 }\n" +
+		"struct " + fsName + " { @location(0) c: f32 }\n" +
+		"@vertex fn vs() -> " + vsName + " { return " + vsName + "(vec4<f32>(0.5), 1.0); }\n" +
+		"@fragment fn fs(i: " + fsName + ") -> @location(0) vec4<f32> { return vec4<f32>(i.c); }\n"
+	ast, err := Parse(src)
+	zz.Assert(err == nil, "program does not parse")
+	if err != nil {
+		return
+	}
+	mod, err := LowerWithSource(ast, src)
+	zz.Assert(err == nil, "program does not lower")
+	if err != nil {
+		return
+	}
+	text, _, err := hlsl.Compile(mod, hlsl.DefaultOptions())
+	zz.Assert(err == nil, "HLSL backend rejected the program")
+	d := zzclike.HLSL
+	prog, perr := zzclike.Parse(text, d)
+	zz.Assert(perr == "", "emitted text is outside the reference grammar: "+perr)
+	if perr != "" {
+		return
+	}
+	for _, dup := range prog.Dups {
+		zz.Fail("emitted text redefines a name (user identifier clashes with a generated one): " + dup)
+	}
+	zz.Reach("end")
+}
